@@ -22,10 +22,14 @@ def suite_hist(ctx):
     s = Suite('hist')
     rng = ctx.rng
     lines, impl = [], []
+    _corpus, _hi = hist.corpus_histories(), 0
     for _ in range(ctx.n(600, 12000)):
         hcfg = hist.HCfg(rt=rng.choice([None, 5120, 300]), p2=rng.choice([1024, 100]), p2s=rng.choice([5120, 200]), cb=rng.random() < 0.5,
                          std=rng.choice([2006, 2013, 2020]))
         ops, meta = hist.gen_history(rng, 'spr', rng.randrange(3, ctx.n(9, 30)), hcfg)
+        if _hi < len(_corpus):
+            ops, meta = _corpus[_hi]            # fixed histories first (hist.corpus_histories)
+        _hi += 1
         out, tr, client, conn = hist.run_history(hcfg, ops)
         line = hcfg.line(ops)
         lines.append(line)
